@@ -134,10 +134,8 @@ def run(tier, seed):
         rep.violation(f"session event rejected by Trace_SerPool (schema {cell['sid']}, budget {budget}): res={obs[i].get('res')}",
                       {"fam": "record_history", "cmds": [cmds[j] for j in hist]}, expected="CallAllowed (Trace_SerPool.tla)", observed=obs[i])
     traces = validate_sessions(events, scope2_path, rej)
-    for gi, ev in enumerate(events):
-        if ev.get("ev") == "call" and ev["res"] == "ok" and len(ev["bytes"]) > 1:
-            codec.binding_check("Trace_SerPool", "Trace_SerPool.cfg", ev, lambda e: dict(e, bytes=e["bytes"][:-1]), scope2_path)
-            break
+    codec.binding_check_some("Trace_SerPool", "Trace_SerPool.cfg", (ev for ev in events if ev.get("ev") == "call" and ev["res"] == "ok" and len(ev["bytes"]) > 1),
+                             lambda e: dict(e, bytes=e["bytes"][:-1]), scope2_path)
     cov = {
         "states": mc["distinct"] + r["states"], "transitions": mc["states"] + r["states"],
         "traces_validated_against_impl": traces,
